@@ -214,7 +214,7 @@ class C09(Check):
                   "correspondence run), the harness (scripted sockets, fake listener, recording listeners, unpacker wrapper). Assumed, not proved: event listeners "
                   "do not re-enter the connection (no halt, no disconnect/send from inside a handler); default OpenFlowConnectionArbiter; xid counter does not wrap; "
                   "every ofp_error carries data; framing (C02) and the deferred sender (C20) are out of scope.")
-    trusted_base = ["harness/c09.py detect_variant: which of the proposed repairs C09-5 / C09-6 the tree has is read off the statement text of two functions (unknown shape = error); the driver evaluates the model at that variant and the correspondence validates the choice",
+    trusted_base = ["harness/c09.py detect_variant: whether the tree has the repairs C09-5 / C09-6 is decided by probing the real code on two witness histories (source shape = cross-check only, never aborts); the driver evaluates the model at that variant and the correspondence validates the choice",
                     "model Model/Conn.lean (+ Model/ConnL.lean for re-entrant listeners) hand-written from of_01.py / openflow/__init__.py; tied by this correspondence run",
                     "harness: real OpenFlow_01_Task.run generator driven by hand (fake listener socket, scripted connection sockets), recording listeners, `_connect` wrapper"]
     assumptions = ["THEOREMS: listeners of the lifecycle events do not re-enter the connection (no halt / disconnect / send inside a handler). Beyond that, TESTED and "
@@ -253,8 +253,10 @@ class C09(Check):
         nexus._connect = connect_rec
         self.variant = self.detect_variant()
 
-    # which of the proposed repairs the tree under test has is read off the source (statement text of the two functions; an unknown
-    # shape is an error, not a guess); the driver evaluates the model at that variant and the correspondence validates the choice
+    # Which variant of the two repairs (C09-5, C09-6) the tree under test has is decided by PROBING its behaviour on the two witness
+    # histories; the statement text of the two functions is only a cross-check (recorded in the evidence).  Nothing here can abort the
+    # run: with an unknown shape, or a probe that fails, the run goes on with the probed (or default = committed) variant, the driver
+    # evaluates the model there, and if model and code then disagree the run reports it (failing input, or the tie as broken).
     VARIANT_SHAPES = {
         "dpid": ("DefaultOpenFlowHandlers", "handle_FEATURES_REPLY", {
             False: "con.features = msg\ncon.original_ports._ports = set(msg.ports)\ncon.ports._reset()\ncon.dpid = msg.datapath_id\ncon.ofnexus._connect(con)\n"
@@ -270,21 +272,53 @@ class C09(Check):
                   "con.ofnexus.raiseEventNoErrors(ConnectionHandshakeComplete, con)\ne = con.ofnexus.raiseEventNoErrors(ConnectionUp, con, con.features)\n"
                   "if con.disconnected:\n    return\nif e is None or e.halt != True:\n    con.raiseEventNoErrors(ConnectionUp, con, con.features)\nif con.features:"})}
 
-    def detect_variant(self):
+    def shape_variant(self):
+        """flag -> True/False when the source has one of the two known statement shapes, else None"""
         import ast
-        tree = ast.parse(open(os.path.join(common.REPO, "pox/openflow/of_01.py")).read())
-        out = {}
-        for flag, (cls, fn, shapes) in self.VARIANT_SHAPES.items():
-            c = [n for n in tree.body if isinstance(n, ast.ClassDef) and n.name == cls][0]
-            f = [n for n in c.body if isinstance(n, ast.FunctionDef) and n.name == fn][0]
-            text = "\n".join(ast.unparse(x) for x in f.body)
-            hits = [k for k, shape in shapes.items() if text.startswith(shape)]
-            if len(hits) != 1: raise RuntimeError("%s.%s has a shape the C09 model does not know:\n%s" % (cls, fn, text[:400]))
-            out[flag] = hits[0]
+        out = {k: None for k in self.VARIANT_SHAPES}
+        try:
+            tree = ast.parse(open(os.path.join(common.REPO, "pox/openflow/of_01.py")).read())
+            for flag, (cls, fn, shapes) in self.VARIANT_SHAPES.items():
+                c = [n for n in tree.body if isinstance(n, ast.ClassDef) and n.name == cls]
+                f = [n for n in (c[0].body if c else []) if isinstance(n, ast.FunctionDef) and n.name == fn]
+                if not f: continue
+                text = "\n".join(ast.unparse(x) for x in f[0].body)
+                hits = [k for k, shape in shapes.items() if text.startswith(shape)]
+                if len(hits) == 1: out[flag] = hits[0]
+        except Exception:
+            pass
         return out
 
+    def probe_variant(self):
+        """the two witnesses, on the real code: (dpid) an established connection of datapath 5 gets a features reply naming 6 — is 5 still
+        registered?  (stop) a ConnectionUp listener disconnects the connection — is ConnectionUp still raised on the connection?"""
+        out, notes = {"dpid": True, "stop": True}, {}
+        C = {"op": "connect"}
+        try:
+            obs = self.impl({"ops": [C] + self.up_ops(0, 5) + [{"op": "recv", "c": 0, "msgs": [self.M("features_reply", 3, d=6)]}]})
+            out["dpid"] = 5 not in [k for k, _ in obs["regs"][-1]]
+        except Exception as e:
+            notes["dpid"] = "probe failed (%s: %s); assuming the committed variant" % (type(e).__name__, e)
+        try:
+            obs = self.impl({"ops": [C] + self.up_ops(0, 5), "listeners": {"up": "disc"}})
+            out["stop"] = not any(e[:2] == ["con", "ConnectionUp"] for st in obs["steps"] for e in st)
+        except Exception as e:
+            notes["stop"] = "probe failed (%s: %s); assuming the committed variant" % (type(e).__name__, e)
+        return out, notes
+
+    def detect_variant(self):
+        probe, notes = self.probe_variant()
+        shape = self.shape_variant()
+        self.variant_source = {}
+        for k in probe:
+            if shape[k] is None: self.variant_source[k] = "probe (source has neither known shape)"
+            elif shape[k] != probe[k]: self.variant_source[k] = "probe (source has the %s shape but behaves otherwise on the witness)" % shape[k]
+            else: self.variant_source[k] = "probe+shape"
+            if k in notes: self.variant_source[k] = notes[k]
+        return probe
+
     def extra_evidence(self):
-        return {"variant": self.variant,
+        return {"variant": self.variant, "variant_decided_by": self.variant_source,
                 "uncovered_explained": "anchored lines never executed are outside the modelled behaviour: request_description=False, the version check unreachable "
                 "through read(), a custom arbiter returning no nexus, `except: pass` arms, the aborted-connections debug timer, the deferred-sender / partial-write / "
                 "EAGAIN arms of Connection.send (C20's business), and in OpenFlow_01_Task.run (anchored whole): bind errors, the SSL branch, pcap wrapping and the "
@@ -543,7 +577,7 @@ class C09(Check):
         for fin in ("barrier", "error"):
             for other in (False, True):
                 for p in range(6):
-                    for kind in ("eof", "err", "disc", "sockfail"):
+                    for kind in ("eof", "err", "disc", "sockfail", "senderr"):
                         for mode in (0, 1):
                             m = self.hs_msgs(5, fin)
                             msgs = m[:2] + [self.M("port_status", 61, r=0)] + m[2:] + [self.M("port_status", 62, r=1)]
@@ -828,9 +862,7 @@ class C09(Check):
         return None
 
     def finding_key(self, case, obs, failure):
-        key = failure.split(" ")[0]
-        if (case.get("listeners") or {}).get("up") == "disc": key = "reentrant:up-listener-disconnects:" + key
-        return key
+        return failure.split(" ")[0]
 
     def nontrivial(self, case, obs):
         return any(e[0] == "in" for st in obs.get("steps", []) for e in st)
